@@ -151,7 +151,12 @@ func init() {
 		w.regions[w.argStr(a[0])] = a[1].(*Term)
 		return nil
 	})
-	reg(zz+"Observe", func(w *Worker, fr *frame, a []Value, fn *ssa.Function) Value { return nil })
+	reg(zz+"Observe", func(w *Worker, fr *frame, a []Value, fn *ssa.Function) Value {
+		if iv, ok := a[1].(IfaceV); ok && w.regionDepth == 0 {
+			w.observes = append(w.observes, obsRec{w.argStr(a[0]), iv})
+		}
+		return nil
+	})
 	reg(zz+"Unwind", func(w *Worker, fr *frame, a []Value, fn *ssa.Function) Value {
 		w.unwind = w.argInt(a[0])
 		return nil
